@@ -1,5 +1,5 @@
 (* operations of the per-format layout models (NWChem electron section, ...) *)
-From BSE Require Import Model.Val Model.Lut Model.Basis Model.Nwchem Model.G94 Model.Turbomole Model.NwchemEcp Model.TurbomoleEcp Model.GamessUs Model.GamessUsEcp Model.Libmol Model.Dalton Model.DaltonEcp Model.Cp2k Model.Cp2kEcp Model.Genbas Model.GenbasEcp Model.Molpro Model.Demon2k Model.Demon2kEcp Model.Molcas Model.MolcasEcp Model.Veloxchem.
+From BSE Require Import Model.Val Model.Lut Model.Basis Model.Nwchem Model.G94 Model.Turbomole Model.NwchemEcp Model.TurbomoleEcp Model.GamessUs Model.GamessUsEcp Model.Libmol Model.Dalton Model.DaltonEcp Model.Cp2k Model.Cp2kEcp Model.Genbas Model.GenbasEcp Model.Molpro Model.Demon2k Model.Demon2kEcp Model.Molcas Model.MolcasEcp Model.Veloxchem Model.Orca Model.Pqs Model.GamessUk Model.Jaguar Model.Fhiaims Model.Bdf.
 Definition dec_zshells (v : val) : res (list (Z * list sshell)) :=
   do l <- as_list v;
   mapM (fun x => match x with
@@ -90,6 +90,14 @@ Definition ops_formats (op : string) (args : list val) : option (res val) :=
   | "vlx_write_electron", [VStr name; els] => Some (do e <- dec_zshells els; do t <- vlx_write_electron name e; ok (VStr t))
   | "vlx_read_electron", [ls] => Some (do l <- dec_strs ls; do r <- vlx_read_electron l; ok (enc_zshells r))
   | "vlx_unbroken_md5", [VStr s] => Some (ok (VStr (md5_hex (vlx_unbroken s))))
+  | "orca_write_all", [els; ecps] => Some (do e <- dec_zshells els; do c <- dec_zecps ecps; do t <- orca_write_all e c; ok (VStr t))
+  | "pqs_write_all", [els; ecps] => Some (do e <- dec_zshells els; do c <- dec_zecps ecps; do t <- pqs_write_all e c; ok (VStr t))
+  | "guk_write_all", [els; ecps] => Some (do e <- dec_zshells els; do c <- dec_zecps ecps; do t <- guk_write_all e c; ok (VStr t))
+  | "jag_write_all", [VStr name; types; els; ecps] =>
+      Some (do ty <- dec_strs types; do e <- dec_zshells els; do c <- dec_zecps ecps; do t <- jag_write_all name ty e c; ok (VStr t))
+  | "fhi_write_all", [VStr name; types; els; ecps] =>
+      Some (do ty <- dec_strs types; do e <- dec_zshells els; do c <- dec_zecps ecps; do t <- fhi_write_all name ty e c; ok (VStr t))
+  | "bdf_write_all", [els; ecps] => Some (do e <- dec_zshells els; do c <- dec_zecps ecps; do t <- bdf_write_all e c; ok (VStr t))
   | "d2k_write_all", [VBool sph; VStr name; els; ecps] => Some (do e <- dec_zeshells els; do c <- dec_zecps ecps; do t <- d2k_write_all sph name e c; ok (VStr t))
   | "d2k_read_all", [ls] => Some (do l <- dec_strs ls; do r <- d2k_read_all l; ok (enc_znwels r))
   | "mcas_write_all", [order; els] => Some (do o <- dec_strs order; do e <- dec_mels els; do t <- mcas_write_all (sord_of o) e; ok (VStr t))
